@@ -21,7 +21,7 @@ func profileByName(name string) Profile {
 		p.MinFns, p.MaxFns = 4, 12
 		p.PMidInvoke = 0.4
 	case "keys":
-		p.Types = []int{0, 1, 3, 8, 19}
+		p.Types = []int{tAny, 0, 1, 3, 8, 19}
 		p.Names = []string{"", "n1", "q\"x"}
 		p.Groups = []string{"g1", "g2", "n1"}
 		p.PNamed, p.PAs, p.PDup, p.PGroupRes, p.PGroupPar = 0.6, 0.3, 0.2, 0.3, 0.3
@@ -40,6 +40,10 @@ func profileByName(name string) Profile {
 		p.PFault, p.InvokeFaults, p.PCallback = 0.3, true, 0.4
 		p.PDigErr, p.POptional, p.PCbPanic = 0.25, 0.35, 0.15
 		p.PGap, p.PBackEdge, p.PInvalid = 0.03, 0.03, 0.02
+		p.Invokes = [2]int{4, 10}
+	case "faultssoft":
+		p.PFault, p.InvokeFaults, p.PGroupRes, p.PGroupPar, p.PSoft, p.PNested = 0.3, true, 0.5, 0.6, 0.6, 0.5
+		p.PRecover, p.MaxScopes, p.PDecorate, p.PGap, p.PInvalid, p.PMidInvoke = 0.5, 4, 0.05, 0.03, 0.02, 0.4
 		p.Invokes = [2]int{4, 10}
 	case "faultsgroups":
 		p.PFault, p.InvokeFaults, p.PGroupRes, p.PGroupPar, p.PFlatten = 0.3, true, 0.5, 0.5, 0.4
@@ -148,7 +152,8 @@ func jobsFor(prop, tier string) []JobSpec {
 		// hist:faultsgroups: feeders and their dependencies fail (errors, recovered and unrecovered panics) and are retried
 		return []JobSpec{{"hist:groups", n(50000, 2500000)}, {"hist:faultsgroups", n(15000, 700000)}}
 	case "C11":
-		return []JobSpec{{"hist:soft", n(50000, 2500000)}}
+		// hist:faultssoft: what a FAILED constructor returned must never show up in a soft group later
+		return []JobSpec{{"hist:soft", n(50000, 2500000)}, {"hist:faultssoft", n(15000, 700000)}}
 	case "C12":
 		return []JobSpec{{"hist:decor", n(40000, 2000000)}, {"hist:faultsdecor", n(10000, 500000)}}
 	case "C13":
